@@ -190,7 +190,7 @@ def check_cfg(F, R, cfg):
                 elif e[0] == "const" and isinstance(e[1], list):
                     vals = e[1]
                 good = vals == want and root(fv, s["term"]["args"][0])[:2] == ("arg", 1)
-        (R.ok if good else R.viol)("C17.sqrt_exponent", I("Field::sqrt"), "sqrt_tonelli_shanks(self, (t-1)/2) with t = (l-1)/2^S" if good else "Tonelli-Shanks exponent literal is not (t-1)/2", *(() if good else (fv.loc(),)))
+        (R.ok if good else R.viol)("C17.sqrt_exponent", I("Field::sqrt"), "sqrt_tonelli_shanks(self, (t-1)/2) with t = (l-1)/2^S" if good else "Field::sqrt is not sqrt_tonelli_shanks(self, (t-1)/2) with t = (l-1)/2^S (the only form this rule decides)", *(() if good else (fv.loc(),)))
     f = method(SC, r"ff::PrimeField$", "is_odd")
     if f:
         fv = view(F, f)
@@ -281,6 +281,11 @@ def check_cfg(F, R, cfg):
             nid += 1 if f_ else 0
             (R.ok if ok else R.viol)("C17.is_identity", I(inst), msg, *(() if ok else (F.loc(f_) if f_ else "",)))
         R.floor("C17.is_identity", I("Group::is_identity impls decided"), nid, 3)
+        ns = 0
+        for inst, f_, ok, msg in FR.point_sums(F, r"edwards::SubgroupPoint"):
+            ns += 1
+            (R.ok if ok else R.viol)("C17.sum", I(inst), msg, *(() if ok else (F.loc(f_),)))
+        R.floor("C17.sum", I("SubgroupPoint Sum impl decided"), ns, 1)
     for nm in ("from_bytes", "from_bytes_unchecked"):
         f = method(SP, r"GroupEncoding$", nm)
         if f:
